@@ -253,6 +253,14 @@ def apply_param_filter(el, prop):
     return True
 
 
+def _property_text(prop_el) -> str:
+    """Return the text value of a vCard property (not its repr)."""
+    value = prop_el.value
+    if isinstance(value, str):
+        return value
+    return str(value)
+
+
 def apply_prop_filter(el, ab):
     name = el.get("name").lower()
     # From https://tools.ietf.org/html/rfc6352
@@ -273,7 +281,7 @@ def apply_prop_filter(el, ab):
         matched = True
         for subel in el:
             if subel.tag == "{urn:ietf:params:xml:ns:carddav}text-match":
-                if not apply_text_match(subel, str(prop_el)):
+                if not apply_text_match(subel, _property_text(prop_el)):
                     matched = False
                     break
             elif subel.tag == "{urn:ietf:params:xml:ns:carddav}param-filter":
